@@ -292,9 +292,10 @@ static const char *leaf_body[] = {
   "  mixed t = ({ \"leaf\" }); hits++;\n  t = ({ t, load_object(\"/c05/nonexistent\") , \"/c05/nonexistent2\"->foo() });\n",
   "  mixed t = ({ \"leaf\" }); hits++;\n  t = ({ t, load_object(\"/c05/bad@N\") });\n",
   "  mixed t = ({ \"leaf\" }); hits++;\n  destruct(this_object()); t = ({ t, g1() + cb1(1, 2) });\n  error(\"after destruct\\n\");\n",
+  "  mixed t = ({ \"leaf\" }); mixed *sprd = ({ 1, 2, 3 }); int z; hits++;\n  t = ({ t, va(sprd..., sizeof(t) / z) });\n",
 };
 const char *vm_leaf_names[] = { "plain", "error()", "throw()", "div-by-zero", "index-out-of-bounds", "bad-operand", "call_other-on-0",
-  "efun-bad-argument", "sprintf-error", "index-in-foreach", "too-deep-recursion", "eval-cost", "stack-overflow", "load-missing", "load-compile-error", "destruct-self-then-error" };
+  "efun-bad-argument", "sprintf-error", "index-in-foreach", "too-deep-recursion", "eval-cost", "stack-overflow", "load-missing", "load-compile-error", "destruct-self-then-error", "error-after-varargs-spread" };
 const int vm_nleaves = sizeof leaf_body / sizeof leaf_body[0];
 
 int vm_shape_possible (const int *kinds, int depth) {
@@ -326,6 +327,7 @@ int vm_shape_text (const int *kinds, int depth, int leaf, char *buf, size_t len)
   P ("// generated nesting shape\ninherit \"/c05/pad\";\ninherit \"/c05/base\";\n");
   P ("int hits; int lvl; mixed keep = ({ \"keep\" });\n");
   P ("void create() { seteuid(getuid()); }\nint query_hits() { return hits; }\nint query_lvl() { return lvl; }\n");
+  P ("int va(mixed *a...) { return sizeof(a); }\n");
   P ("int deep(int d) { mixed t = ({ d }); return deep(d + 1) + sizeof(t); }\n");
   P ("int wide(int d) { mixed a, b, c, e, f, g, h, i, j, k, l, m, n, o, p, q, r, s, t, u; return wide(d + 1) + wide(d + 2); }\n");
   for (int i = 1; i <= VM_MAXDEPTH; i++) P ("int g%d();\n", i);
